@@ -168,10 +168,12 @@ let run (path : string) =
            incr h4n; if Z.gt en !max_en then max_en := en;
            if Accrual.h4_ok (z_of_int 4096) (z_of_zz o1.cf) (z_of_zz o2.cf) (z_of_zz o12.cf) then bump "pow:H4:ok(en<=4096)"
            else begin bump "pow:H4:FAIL(en>4096)"; mismatch ~case:!case ~step:!step ~field:"hypothesis.H4" ~model:"en<=4096" ~impl:(Z.to_string en) end;
-           (* predicate only (not proved through the float roundings): n1 + n2 <= n12 + amt * f12 * 2^-46 + 2 ulp *)
-           let slack = Z.add (Z.div (Z.mul (Z.mul (Z.of_string amt) o12.cf) p18) (Z.mul fone (Z.shift_left Z.one 46))) (Z.of_int 2) in
-           if Z.gt (Z.add (Z.of_string n1) (Z.of_string n2)) (Z.add (Z.of_string n12) slack) then
-             pf "cmp_subadditive" "none" (Printf.sprintf "%s+%s>%s+%s" n1 n2 n12 (Z.to_string slack))
+           (* the proved bound (c18_cmp_subadditive), judged on the implementation's three results with the en measured for this triple:
+              n1 + n2 <= n12 + amtf * f12 * (en + 5) * 2^-53 + 2 ulp *)
+           let amtf = Accrual.cmp_amtf (zs amt) in
+           if not (Pow.holds_C18_cmp_subadditive (z_of_zz en) amtf (z_of_zz o12.cf) (zs n1) (zs n2) (zs n12)) then
+             pf "cmp_subadditive" "none" (Printf.sprintf "%s+%s>%s+slack(en=%s)" n1 n2 n12 (Z.to_string en));
+           if Z.gt (Z.add (Z.of_string n1) (Z.of_string n2)) (Z.of_string n12) then bump "sub:C:excess>0"
          | _ -> ())
       | "v" :: v1 :: v2 :: v3 :: v4 :: v5 :: v6 :: st :: v7 :: nlen :: hd :: [] ->
         incr step; incr steps; Buffer.add_string sig_ line;
